@@ -32,6 +32,7 @@ HInit == [elected |-> {},      \* <<term, id>> of every replica seen as leader
           ricf    |-> {},      \* <<leader, ctx, from>> hinted heartbeat responses delivered while pending
           acks    |-> {},      \* <<leader, term, from, index>> positive ReplicateResp delivered
           grants  |-> {},      \* <<candidate, term, from>> granted RequestVoteResp delivered
+          heard   |-> {},      \* <<leader, from>> anything delivered / reported from `from` since the leader's last quorum check
           released |-> {},     \* read contexts released to a requester anywhere
           healed  |-> FALSE,   \* C17: the fault prefix is over
           probes  |-> {},      \* <<replica, value>> proposed after healing
@@ -123,7 +124,21 @@ HStep(hh, pre, post, m, ev) ==
                                  (pre.mem.nv \cap post.mem.w)) # {}
                THEN [h13 EXCEPT !.bad = @ \cup {"KindChange"}] ELSE h13
       h15 == [h14 EXCEPT !.released = @ \cup {x.ctx : x \in newRtr}]
-  IN h15
+      \* C18: with CheckQuorum a leader survives its quorum check (every election time-out) only if
+      \* it has heard from a majority of voters + witnesses since the previous check; non-voting
+      \* members do not count.  `heard` over-approximates the `active` flags of the code (any
+      \* delivered message or transport report counts), so a correct leader never trips this.
+      h16 == IF CheckQuorum /\ m.mtype # "" /\ m.from # None /\ m.from # n /\ post.up /\ post.role = "L" /\ ~becameLeader
+               THEN [h15 EXCEPT !.heard = @ \cup {<<n, m.from>>}] ELSE h15
+      h17 == IF becameLeader THEN [h16 EXCEPT !.heard = {x \in @ : x[1] # n}] ELSE h16
+      checked == CheckQuorum /\ ev = "Tick" /\ pre.up /\ pre.role = "L" /\ pre.etick + 1 >= ET
+      active == {v \in VotingIds(pre) : v = n \/ <<n, v>> \in h17.heard}
+      h18 == IF checked
+               THEN LET hx == IF post.up /\ post.role = "L" /\ post.term = pre.term /\ Cardinality(active) < Quorum(pre)
+                                THEN [h17 EXCEPT !.bad = @ \cup {"CheckQuorumLease"}] ELSE h17
+                    IN [hx EXCEPT !.heard = {x \in @ : x[1] # n}]
+               ELSE h17
+  IN h18
 
 (* ----------------------------------------------------- read index history *)
 \* a ReadIndex request with context ctx entered the system now
@@ -158,6 +173,7 @@ ApplyOrder == "ApplyOrder" \notin h.bad
 AppliedIsCommitted == \A n \in Up : node[n].aapp + Len(node[n].alist) <= Max2(node[n].com, node[n].dsnap.index)
                                     /\ node[n].aapp <= CMax(h)
 Monotonic == "Monotonic" \notin h.bad
+CheckQuorumLease == "CheckQuorumLease" \notin h.bad
 
 \* C03
 ElectionSafety == \A x, y \in h.elected : x[1] = y[1] => x[2] = y[2]
